@@ -126,7 +126,7 @@ def generate(ctx):
                "start_registered": rng.random() < 0.5, "ops": ops}
     for _ in range(4000 if th else 500):
         which = rng.choice(["clamp", "norm"])
-        target = rng.choice(["plain", "buffer", "weight", "updater_parent_weight"])
+        target = rng.choice(["plain", "buffer", "weight", "updater_parent_weight", "nested3"])
         d = {"part": "post", "which": which, "target": target, "seed": rng.randrange(1 << 30),
              "train_update": rng.random() < 0.8, "eval_update": rng.random() < 0.8, "pre": rng.random() < 0.4,
              "shape": [rng.randint(1, 4), rng.randint(1, 5)], "nops": rng.randint(3, 10),
@@ -315,7 +315,20 @@ def _post(ctx, desc):
                 t[:, 0] = 0
         return t
 
-    if target in ("plain", "buffer"):
+    if target == "nested3":
+        # a documented dot-separated path three levels deep: the hook is tied to the outer module, the tensor lives two below
+        mod = _Holder()
+        mod.stage = _Holder()
+        mod.stage.block = _Holder()
+        mod.stage.block.data = fresh()
+        attr = "stage.block.data"
+
+        def assign(t):
+            mod.stage.block.data = t
+
+        def call():
+            mod(None)
+    elif target in ("plain", "buffer"):
         mod = _Holder()
         if target == "plain":
             mod.w = fresh()
@@ -394,7 +407,7 @@ def _post(ctx, desc):
     ctx.count("postcondition_evaluations", n)
     ctx.count(f"postcondition_evaluations.{desc['which']}", n)
     hk.deregister()
-    if _nhooks(mod) != 0 and target in ("plain", "buffer"):
+    if _nhooks(mod) != 0 and target in ("plain", "buffer", "nested3"):
         return ctx.violation("post.deregister.dangling_handle", "handle left after deregister", desc)
 
 
